@@ -114,6 +114,10 @@ struct State {
   std::map<std::string, std::shared_ptr<HmmLikelihood>> obj;
   std::map<std::string, std::shared_ptr<Parametrizable>> par;   // the same objects, as Parametrizable
   std::map<std::string, std::vector<std::vector<double>>> buf;  // targets of getHiddenStatesPosteriorProbabilities(probs, append)
+  // sizes of the arrays read by get(D|D2)LogLikelihoodForASite (private members; the accessors do not check their
+  // argument): the number of positions once a derivative of that order has been computed
+  struct Shadow { size_t dN = 0, d2N = 0; };
+  std::map<std::string, Shadow> sh;
 };
 
 template<class L> void reg(State& s, const std::string& k, std::shared_ptr<L> p) { s.obj[k] = p; s.par[k] = p; }
@@ -130,7 +134,7 @@ std::string run(State& s, const Toks& t) {
     auto a = std::make_shared<TAlphabet>(s.n);
     auto tr = std::make_shared<TTransitions>(a, s.P, s.F);
     auto em = std::make_shared<TEmissions>(a, s.E, t[3] == "1");
-    s.obj.erase(t[1]); s.par.erase(t[1]);
+    s.obj.erase(t[1]); s.par.erase(t[1]); s.sh.erase(t[1]);
     if (t[2] == "resc") reg(s, t[1], std::make_shared<RescaledHmmLikelihood>(a, tr, em, ""));
     else if (t[2] == "low") reg(s, t[1], std::make_shared<LowMemoryRescaledHmmLikelihood>(a, tr, em, "", toU(t[4])));
     else if (t[2] == "log") reg(s, t[1], std::make_shared<LogsumHmmLikelihood>(a, tr, em, ""));
@@ -188,7 +192,7 @@ std::string run(State& s, const Toks& t) {
     if (q == s.obj.end()) return "no-object";
     std::shared_ptr<HmmLikelihood> c(q->second->clone());
     std::shared_ptr<Parametrizable> cp = std::dynamic_pointer_cast<Parametrizable>(c);
-    s.obj[t[2]] = c; s.par[t[2]] = cp;
+    s.obj[t[2]] = c; s.par[t[2]] = cp; s.sh[t[2]] = s.sh[t[1]];
     return hx(c->getLogLikelihood());
   }
   if (o == "assign") {
@@ -197,6 +201,7 @@ std::string run(State& s, const Toks& t) {
     if (a == s.obj.end() || b == s.obj.end()) return "no-object";
     if (!(assignAs<RescaledHmmLikelihood>(*b->second, *a->second) || assignAs<LowMemoryRescaledHmmLikelihood>(*b->second, *a->second)
           || assignAs<LogsumHmmLikelihood>(*b->second, *a->second))) return "class-mismatch";
+    s.sh[t[2]] = s.sh[t[1]];
     return hx(b->second->getLogLikelihood());
   }
   if (o == "agree") {
@@ -223,8 +228,24 @@ std::string run(State& s, const Toks& t) {
   if (o == "post1") return hxs(L.getHiddenStatesPosteriorProbabilitiesForASite(toU(t[2])));
   if (o == "sl") return hx(L.getLikelihoodForASite(toU(t[2])));
   if (o == "sls") return hxs(L.getLikelihoodForEachSite());
-  if (o == "d1") return hx(L.getFirstOrderDerivative(t[2]));
-  if (o == "d2") return hx(L.getSecondOrderDerivative(t[2]));
+  if ((o == "d1" || o == "d2" || o == "dsite" || o == "d2site") && t.size() < 3) return "bad-op";
+  if (o == "d1" || o == "d2") {
+    double v = o == "d1" ? L.getFirstOrderDerivative(t[2]) : L.getSecondOrderDerivative(t[2]);
+    if (!t[2].empty()) {
+      size_t T = L.hmmEmissionProbabilities().getNumberOfPositions();
+      State::Shadow& h = s.sh[t[1]];
+      h.dN = T;
+      if (o == "d2") h.d2N = T;
+    }
+    return hx(v);
+  }
+  if (o == "dsite" || o == "d2site") {
+    size_t site = toU(t[2]);
+    const State::Shadow& h = s.sh[t[1]];
+    bool isResc = dynamic_cast<RescaledHmmLikelihood*>(&L) != nullptr, isLog = dynamic_cast<LogsumHmmLikelihood*>(&L) != nullptr;
+    if ((isResc || isLog) && (site >= h.dN || (o == "d2site" && site >= h.d2N))) return "ub";
+    return hx(o == "dsite" ? L.getDLogLikelihoodForASite(site) : L.getD2LogLikelihoodForASite(site));
+  }
   return "bad-op";
 }
 }
